@@ -651,6 +651,71 @@ def fit_data(n_rows, n_cols, seed):
     return np.column_stack(cols) if n_cols else np.empty((n_rows, 0))
 
 
+TABLE_FORMS = ("ndarray", "list", "tuple", "df", "fortran")
+
+
+def data_shape(case):
+    """shape of np.array(data) for the case's `data_form` (default: a 2-D ndarray of n_rows x data_dim):
+    the table as ndarray / nested list / tuple of tuples / pandas DataFrame / Fortran-ordered array; `flat`: one
+    column as a flat sequence of n_rows values; `row`: one observation (data_dim values) not wrapped in a
+    table; `scalar`; `3ax_tail1`: the table with a trailing axis of length 1; `3ax_blocks`: the rows of the
+    table split into 5 blocks (5, n_rows/5, data_dim)"""
+    form = case.get("data_form", "ndarray")
+    r, c = case["n_rows"], case["data_dim"]
+    if form in TABLE_FORMS:
+        return [r, c]
+    if form in ("flat", "flat_list"):
+        return [r]
+    if form in ("row", "row_list"):
+        return [c]
+    if form == "scalar":
+        return []
+    if form == "3ax_tail1":
+        return [r, c, 1]
+    if form == "3ax_blocks":
+        return [5, r // 5, c]
+    raise KeyError(form)
+
+
+def data_value(case):
+    form = case.get("data_form", "ndarray")
+    t = fit_data(case["n_rows"], case["data_dim"], case.get("data_seed", 0))
+    if form == "ndarray":
+        return t
+    if form == "list":
+        return t.tolist()
+    if form == "tuple":
+        return tuple(tuple(r) for r in t.tolist())
+    if form == "df":
+        import pandas as pd
+
+        return pd.DataFrame(t, columns=["v%d" % k for k in range(t.shape[1])])
+    if form == "fortran":
+        return np.asfortranarray(t)
+    if form == "flat":
+        return np.ascontiguousarray(t[:, 0])
+    if form == "flat_list":
+        return t[:, 0].tolist()
+    if form == "row":
+        return np.ascontiguousarray(t[0, :])
+    if form == "row_list":
+        return t[0, :].tolist()
+    if form == "scalar":
+        return 1.5
+    if form == "3ax_tail1":
+        return t.reshape(t.shape + (1,))
+    if form == "3ax_blocks":
+        return t.reshape((5, t.shape[0] // 5, t.shape[1]))
+    raise KeyError(form)
+
+
+def fit_observed_only(case):
+    """three or more axes whose LAST axis has n_dim entries: the code's data check (`shape[-1] != n_dim`) lets
+    these through and what the numerical fits then do with 2-D columns is not validation; only observed"""
+    sh = data_shape(case)
+    return len(sh) >= 3 and sh[-1] == len(case["dims"])
+
+
 def build_fit(case):
     dims = case["dims"]
     n = len(dims)
@@ -658,7 +723,9 @@ def build_fit(case):
     with warnings.catch_warnings():
         warnings.simplefilter("ignore")
         m = V.GlobalHierarchicalModel(descs)
-    data = fit_data(case["n_rows"], case["data_dim"], case.get("data_seed", 0))
+    data = data_value(case)
+    if list(np.array(data).shape) != data_shape(case):
+        raise RuntimeError("harness bug: data_shape disagrees with the data built for " + json_key(case)[:300])
     fd = case["fit_descs"]
     if fd is None:
         fds = None
@@ -707,7 +774,8 @@ def fit_line(case):
                 has = x.get("method") is not None
                 toks += ["d", "1" if has else "0", method_tag(x["method"]) if has else "mle",
                          weights_tag(x["weights"]) if x.get("weights") is not None else "none"]
-    toks += [str(case["data_dim"])]
+    sh = data_shape(case)
+    toks += [str(len(sh))] + [str(k) for k in sh]
     return toks
 
 
@@ -719,7 +787,8 @@ def wf_fit(case):
     if fd is not None:
         if len(fd) != n or any(x is not None and x.get("method") is None for x in fd):
             return False
-    if case["data_dim"] != n:
+    # the data is a table (exactly two axes) with one column per dimension
+    if case.get("data_form", "ndarray") not in TABLE_FORMS or case["data_dim"] != n:
         return False
     data = fit_data(case["n_rows"], n, case.get("data_seed", 0))
     for i, d in enumerate(dims):
@@ -847,9 +916,22 @@ def _fit_variants(base, n, c, i, fam):
         if c[i] is None:
             yield var("neighbour:array_weights",
                       fit_descs=descs_with(i, {"method": ["str", "wlsq"], "weights": ["array"]}))
+    # the same table handed over in the other array-like forms `fit` documents (np.array(data) is what counts)
+    # (the conversion happens before any family-specific code: run with the cheaply fitted carriers only)
+    for form in TABLE_FORMS[1:]:
+        if fam in CHEAP and (n <= 2 or (TABLE_FORMS.index(form) + i) % 2 == 0):
+            yield var("neighbour:data_form", data_form=form)
     # malformed
     for dd in ([n - 1] if n > 1 else []) + [n + 1]:
         yield var("single:data_dim", data_dim=dd)
+    # not a table: one column flat (last axis = n_rows), one observation flat (last axis = n_dim: passes the
+    # dimension test, `data[:, 0]` fails), a scalar, a trailing extra axis (last axis 1 != n_dim for n_dim >= 2)
+    for form in ("flat", "flat_list", "row", "row_list", "scalar"):
+        yield var("single:data_not_a_table", data_form=form)
+    yield var("single:data_not_a_table" if n > 1 else "observed:data_axes", data_form="3ax_tail1")
+    yield var("single:data_not_a_table", data_form="3ax_blocks", data_dim=n + 1)
+    if i == 0:
+        yield var("observed:data_axes", data_form="3ax_blocks")
     for L in (n - 1, n + 1):
         yield var("single:fit_desc_length", fit_descs=[None] * L)
     yield var("single:no_method", fit_descs=descs_with(i, {"weights": ["none"]}))
@@ -898,6 +980,8 @@ def fit_pair_cases(rng, count):
         x["gen"] = "pair:" + a["gen"][7:] + "+" + b["gen"][7:]
         if b["data_dim"] != base["data_dim"]:
             x["data_dim"] = b["data_dim"]
+        if "data_form" in b and "data_form" not in a:
+            x["data_form"] = b["data_form"]
         if b["fit_descs"] != base["fit_descs"]:
             if a["fit_descs"] == base["fit_descs"]:
                 x["fit_descs"] = copy.deepcopy(b["fit_descs"])
@@ -918,7 +1002,8 @@ def process_fit(ck, cases, state):
     answers = ck.driver.run(lines) if lines else []
 
     def fkey(case):
-        return json_key({k: case[k] for k in ("dims", "slicers", "fit_descs", "data_dim", "n_rows", "data_seed")})
+        return json_key({k: case.get(k) for k in ("dims", "slicers", "fit_descs", "data_dim", "n_rows", "data_seed",
+                                                   "data_form")})
 
     todo = {}
     for case in cases:
@@ -929,9 +1014,18 @@ def process_fit(ck, cases, state):
         state["fit_cache"][k] = impl
     for case, ans in zip(cases, answers):
         model = parse_ans(ans)
+        impl = state["fit_cache"][fkey(case)]
+        form = case.get("data_form", "ndarray")
+        if form != "ndarray":
+            ck.count("fit:data_form=" + form + ":" + impl["status"])
+        if fit_observed_only(case):
+            ck.case(case, nontrivial=True, sample=False)
+            ck.count("entry=fit")
+            ck.count("observed_only:fit_data_with_%d_axes_last_axis_n_dim:%s" % (
+                len(data_shape(case)), impl["status"] + (":" + impl["kind"] if impl["status"] == "rejected" else "")))
+            continue
         wf = wf_fit(case)
         expect_gen(case, wf)
-        impl = state["fit_cache"][fkey(case)]
         ck.case(case, nontrivial=True, sample=(state["n"] % 397 == 0))
         state["n"] += 1
         ck.count("entry=fit")
